@@ -1,13 +1,674 @@
-// Package c02 is the harness for property C02 (runs the real kapacitor code, prints op lines).
+// Package c02 is the harness for property C02 (stream routing: every selected point exactly once, in order,
+// only to tasks that declared the database/retention policy, unaffected by other tasks' start/stop/delete).
+//
+// It drives a REAL kapacitor.TaskMaster (kit.NewTM) with generated histories of
+//
+//	cfg <defaultRP> <api|http>
+//	start <id> <dbrps> <froms>      NewTask(script generated from <froms>, one `@sink()` under every from()) + StartTask
+//	stop <id> / delete <id>         StopTask / DeleteTask
+//	write <db> <rp> <points>        TaskMaster.WritePoints, or POST /kapacitor/v1/write (serveWriteLine) in http mode
+//	final <id> <i>                  => ids of the points the sink under the i-th from() of task <id> recorded, in order
+//	quiesce                         => number of waits that timed out (0 unless the implementation lost points)
+//
+// and prints what the implementation did after ` => `.
+//
+// Linearisation: WritePoints only enqueues on the TaskMaster's own write_points edge; the routing decision is
+// taken later by the forking goroutine (forkPoint). Before every start/stop/delete and before the final
+// read-out the harness therefore waits until every accepted point has been forked (exact: the public
+// `ingress` statistics count one per finished forkPoint) and, for the task that is being stopped, until its
+// sinks hold the number of points the harness expects (UDF nodes abort on stop and drop their backlog: that
+// loss path belongs to C07). The expectation is only used for WAITING (with a time-out); the verdict is taken by
+// the Lean driver from the recorded sequences.
 package c02
 
 import (
+	"bytes"
 	"fmt"
+	"net/http"
 	"os"
+	"strconv"
+	"strings"
+	"time"
+
+	imodels "github.com/influxdata/influxdb/models"
+	"github.com/influxdata/kapacitor"
+	"github.com/influxdata/kapacitor/edge"
+	"github.com/influxdata/kapacitor/server/vars"
+
+	"verifharness/kit"
 )
 
-// Run is replaced by the property's harness.
+// ---------------------------------------------------------------------------------------------
+// data of a case
+
+type fromDef struct {
+	db, rp, name string
+	wh           int // -1 = no where()
+}
+
+type taskDef struct {
+	id    string
+	dbrps [][2]string
+	froms []fromDef
+}
+
+type point struct {
+	id   int64
+	name string
+	pass []int // oracle: indices of the where-predicates that are true of this point
+	v    int64
+	host string
+}
+
+// The where() predicates a from() may carry. `eval` is the harness' own reading of the lambda (the lambda
+// evaluator itself is the subject of C04); an evaluation error counts as "does not pass" (stream.go matches()).
+var preds = []struct {
+	lambda string
+	eval   func(p *point) bool
+}{
+	{`"v" > 5`, func(p *point) bool { return p.v > 5 }},
+	{`"host" == 'a'`, func(p *point) bool { return p.host == "a" }},
+	{`"v" % 2 == 0`, func(p *point) bool { return p.v%2 == 0 }},
+	{`"nosuchfield" > 0`, func(p *point) bool { return false }}, // evaluation error => no match
+	{`"v" >= 0`, func(p *point) bool { return true }},
+}
+
+func passOf(p *point) []int {
+	var r []int
+	for i := range preds {
+		if preds[i].eval(p) {
+			r = append(r, i)
+		}
+	}
+	return r
+}
+
+// pass is derived from (v, host): v = id-derived, so a point token only needs id|name|v|host; the pass list is
+// printed too (it is what the model consumes) and re-derived on replay.
+func pointTok(p *point) string {
+	ps := "-"
+	if len(p.pass) > 0 {
+		var s []string
+		for _, k := range p.pass {
+			s = append(s, strconv.Itoa(k))
+		}
+		ps = strings.Join(s, ";")
+	}
+	return fmt.Sprintf("%d|%s|%s|%d|%s", p.id, kit.Esc(p.name), ps, p.v, kit.Esc(p.host))
+}
+
+func parsePoint(tok string) (*point, error) {
+	f := strings.Split(tok, "|")
+	if len(f) != 5 {
+		return nil, fmt.Errorf("bad point %q", tok)
+	}
+	id, err := strconv.ParseInt(f[0], 10, 64)
+	if err != nil {
+		return nil, err
+	}
+	name, err := kit.Unesc(f[1])
+	if err != nil {
+		return nil, err
+	}
+	v, err := strconv.ParseInt(f[3], 10, 64)
+	if err != nil {
+		return nil, err
+	}
+	host, err := kit.Unesc(f[4])
+	if err != nil {
+		return nil, err
+	}
+	p := &point{id: id, name: name, v: v, host: host}
+	p.pass = passOf(p)
+	return p, nil
+}
+
+func dbrpsTok(d [][2]string) string {
+	if len(d) == 0 {
+		return "-"
+	}
+	var s []string
+	for _, x := range d {
+		s = append(s, kit.Esc(x[0])+"|"+kit.Esc(x[1]))
+	}
+	return strings.Join(s, ",")
+}
+
+func parseDBRPs(tok string) ([][2]string, error) {
+	if tok == "-" {
+		return nil, nil
+	}
+	var out [][2]string
+	for _, x := range strings.Split(tok, ",") {
+		f := strings.Split(x, "|")
+		if len(f) != 2 {
+			return nil, fmt.Errorf("bad dbrp %q", x)
+		}
+		a, e1 := kit.Unesc(f[0])
+		b, e2 := kit.Unesc(f[1])
+		if e1 != nil || e2 != nil {
+			return nil, fmt.Errorf("bad dbrp %q", x)
+		}
+		out = append(out, [2]string{a, b})
+	}
+	return out, nil
+}
+
+func fromsTok(fs []fromDef) string {
+	var s []string
+	for _, f := range fs {
+		wh := "-"
+		if f.wh >= 0 {
+			wh = strconv.Itoa(f.wh)
+		}
+		s = append(s, kit.Esc(f.db)+"|"+kit.Esc(f.rp)+"|"+kit.Esc(f.name)+"|"+wh)
+	}
+	return strings.Join(s, ",")
+}
+
+func parseFroms(tok string) ([]fromDef, error) {
+	var out []fromDef
+	for _, x := range strings.Split(tok, ",") {
+		f := strings.Split(x, "|")
+		if len(f) != 4 {
+			return nil, fmt.Errorf("bad from %q", x)
+		}
+		db, e1 := kit.Unesc(f[0])
+		rp, e2 := kit.Unesc(f[1])
+		nm, e3 := kit.Unesc(f[2])
+		if e1 != nil || e2 != nil || e3 != nil {
+			return nil, fmt.Errorf("bad from %q", x)
+		}
+		wh := -1
+		if f[3] != "-" {
+			k, err := strconv.Atoi(f[3])
+			if err != nil || k < 0 || k >= len(preds) {
+				return nil, fmt.Errorf("bad where index %q", f[3])
+			}
+			wh = k
+		}
+		out = append(out, fromDef{db: db, rp: rp, name: nm, wh: wh})
+	}
+	return out, nil
+}
+
+func tickStr(s string) string {
+	return "'" + strings.ReplaceAll(strings.ReplaceAll(s, `\`, `\\`), `'`, `\'`) + "'"
+}
+
+// script renders the task: one `stream|from()…@sink()` statement per from-node. Pipeline node ids are assigned in
+// creation order: stream0, from1, sink2, from3, sink4, … so the sink under from #i is node `sink<2i+2>`.
+func script(d *taskDef) string {
+	var b strings.Builder
+	for _, f := range d.froms {
+		b.WriteString("stream\n    |from()\n")
+		if f.db != "" {
+			b.WriteString("        .database(" + tickStr(f.db) + ")\n")
+		}
+		if f.rp != "" {
+			b.WriteString("        .retentionPolicy(" + tickStr(f.rp) + ")\n")
+		}
+		if f.name != "" {
+			b.WriteString("        .measurement(" + tickStr(f.name) + ")\n")
+		}
+		if f.wh >= 0 {
+			b.WriteString("        .where(lambda: " + preds[f.wh].lambda + ")\n")
+		}
+		b.WriteString("    @sink()\n")
+	}
+	return b.String()
+}
+
+func sinkKey(id string, i int) string { return fmt.Sprintf("%s/sink%d", id, 2*i+2) }
+
+// selects is the harness' own reading of the from() selection (used only to know how long to wait).
+func selects(f *fromDef, db, rp string, p *point) bool {
+	if f.db != "" && f.db != db {
+		return false
+	}
+	if f.rp != "" && f.rp != rp {
+		return false
+	}
+	if f.name != "" && f.name != p.name {
+		return false
+	}
+	if f.wh >= 0 {
+		return preds[f.wh].eval(p)
+	}
+	return true
+}
+
+// ---------------------------------------------------------------------------------------------
+// executing one case on the real TaskMaster
+
+const tmID = "verif" // kit.NewTM's TaskMaster id (tag `task_master` of the ingress statistics)
+
+func ingressSum() int64 {
+	data, err := vars.GetStatsData()
+	if err != nil {
+		return -1
+	}
+	var sum int64
+	for _, d := range data {
+		if d.Name == "ingress" && d.Tags["task_master"] == tmID {
+			if v, ok := d.Values["points_received"].(int64); ok {
+				sum += v
+			}
+		}
+	}
+	return sum
+}
+
+// edgesBalanced reports whether every edge of the given tasks has emitted everything it collected, together
+// with a fingerprint of the counters.
+func edgeSnapshot(tasks map[string]bool) (balanced bool, fp string) {
+	data, err := vars.GetStatsData()
+	if err != nil {
+		return false, ""
+	}
+	balanced = true
+	var parts []string
+	for _, d := range data {
+		if d.Name != "edges" || !tasks[d.Tags["task"]] {
+			continue
+		}
+		c, _ := d.Values["collected"].(int64)
+		e, _ := d.Values["emitted"].(int64)
+		if c != e {
+			balanced = false
+		}
+		parts = append(parts, fmt.Sprintf("%s/%s/%s:%d:%d", d.Tags["task"], d.Tags["parent"], d.Tags["child"], c, e))
+	}
+	// order of the stats map is not stable: sort
+	sortStrings(parts)
+	return balanced, strings.Join(parts, " ")
+}
+
+func sortStrings(a []string) {
+	for i := 1; i < len(a); i++ {
+		for j := i; j > 0 && a[j] < a[j-1]; j-- {
+			a[j], a[j-1] = a[j-1], a[j]
+		}
+	}
+}
+
+type runner struct {
+	tm        *kit.TM
+	http      bool
+	defRP     string
+	running   map[string]*taskDef
+	everDef   map[string]int // task id -> max number of from-nodes ever started under it
+	order     []string       // task ids in first-start order
+	expected  map[string]int // sink key -> number of points expected so far
+	written   int64
+	base      int64
+	timeouts  int
+	waitLimit time.Duration
+}
+
+func (r *runner) waitForked() {
+	deadline := time.Now().Add(r.waitLimit)
+	for i := 0; ; i++ {
+		if ingressSum()-r.base >= r.written {
+			return
+		}
+		if time.Now().After(deadline) {
+			r.timeouts++
+			return
+		}
+		if i < 20 {
+			time.Sleep(50 * time.Microsecond)
+		} else {
+			time.Sleep(time.Millisecond)
+		}
+	}
+}
+
+// waitSinks waits until every sink of the given running tasks holds the expected number of points, then (best
+// effort, matters only when the implementation delivers MORE than expected) until the tasks' edges are balanced
+// and two consecutive counter snapshots agree.
+func (r *runner) waitSinks(ids map[string]bool, settle bool) {
+	deadline := time.Now().Add(r.waitLimit)
+	for id := range ids {
+		d := r.running[id]
+		if d == nil {
+			continue
+		}
+		for i := range d.froms {
+			k := sinkKey(id, i)
+			for n := 0; ; n++ {
+				if r.tm.Rec.Len(k) >= r.expected[k] {
+					break
+				}
+				if time.Now().After(deadline) {
+					r.timeouts++
+					break
+				}
+				if n < 20 {
+					time.Sleep(50 * time.Microsecond)
+				} else {
+					time.Sleep(time.Millisecond)
+				}
+			}
+		}
+	}
+	if !settle {
+		return
+	}
+	prev := ""
+	for n := 0; n < 200; n++ {
+		ok, fp := edgeSnapshot(ids)
+		if ok && fp == prev {
+			return
+		}
+		prev = fp
+		time.Sleep(500 * time.Microsecond)
+	}
+}
+
+func (r *runner) start(d *taskDef) string {
+	var dbrps []kapacitor.DBRP
+	for _, x := range d.dbrps {
+		dbrps = append(dbrps, kapacitor.DBRP{Database: x[0], RetentionPolicy: x[1]})
+	}
+	task, err := r.tm.TM.NewTask(d.id, script(d), kapacitor.StreamTask, dbrps, 0, nil)
+	if err != nil {
+		return "err:newtask"
+	}
+	r.waitForked()
+	if r.running[d.id] != nil {
+		// restart in place: the old incarnation's sinks share the recording keys, let them finish first
+		r.waitSinks(map[string]bool{d.id: true}, true)
+	}
+	if _, err := r.tm.TM.StartTask(task); err != nil {
+		if len(dbrps) == 0 {
+			return "err:nodbrp"
+		}
+		return "err:start"
+	}
+	if _, seen := r.everDef[d.id]; !seen {
+		r.order = append(r.order, d.id)
+	}
+	if len(d.froms) > r.everDef[d.id] {
+		r.everDef[d.id] = len(d.froms)
+	}
+	r.running[d.id] = d
+	return "ok"
+}
+
+func (r *runner) stop(id string, del bool) string {
+	r.waitForked()
+	r.waitSinks(map[string]bool{id: true}, true)
+	var err error
+	if del {
+		err = r.tm.TM.DeleteTask(id)
+	} else {
+		err = r.tm.TM.StopTask(id)
+	}
+	delete(r.running, id)
+	if err != nil {
+		return "err"
+	}
+	return "ok"
+}
+
+var baseTime = time.Unix(1700000000, 0).UTC()
+
+func lpEsc(s string, measurement bool) string {
+	s = strings.ReplaceAll(s, `\`, `\\`)
+	s = strings.ReplaceAll(s, ",", `\,`)
+	s = strings.ReplaceAll(s, " ", `\ `)
+	if !measurement {
+		s = strings.ReplaceAll(s, "=", `\=`)
+	}
+	return s
+}
+
+func (r *runner) write(db, rp string, pts []*point) string {
+	if r.http {
+		var body bytes.Buffer
+		for _, p := range pts {
+			fmt.Fprintf(&body, "%s,host=%s id=%di,v=%di %d\n", lpEsc(p.name, true), lpEsc(p.host, false), p.id, p.v, baseTime.UnixNano()+p.id)
+		}
+		u := r.tm.HTTPD.URL() + "/kapacitor/v1/write?db=" + urlEsc(db) + "&rp=" + urlEsc(rp)
+		resp, err := http.Post(u, "text/plain", &body)
+		if err != nil {
+			return "err:http"
+		}
+		resp.Body.Close()
+		if resp.StatusCode != http.StatusNoContent {
+			return "err:" + strconv.Itoa(resp.StatusCode)
+		}
+	} else {
+		var mps []imodels.Point
+		for _, p := range pts {
+			mp, err := imodels.NewPoint(p.name, imodels.NewTags(map[string]string{"host": p.host}),
+				imodels.Fields{"id": p.id, "v": p.v}, baseTime.Add(time.Duration(p.id)))
+			if err != nil {
+				return "err:point"
+			}
+			mps = append(mps, mp)
+		}
+		if err := r.tm.TM.WritePoints(db, rp, imodels.ConsistencyLevelAll, mps); err != nil {
+			return "err:write"
+		}
+	}
+	r.written += int64(len(pts))
+	erp := rp
+	if erp == "" {
+		erp = r.defRP
+	}
+	for id, d := range r.running {
+		declared := false
+		for _, x := range d.dbrps {
+			if x[0] == db && x[1] == erp {
+				declared = true
+			}
+		}
+		if !declared {
+			continue
+		}
+		for i := range d.froms {
+			for _, p := range pts {
+				if selects(&d.froms[i], db, erp, p) {
+					r.expected[sinkKey(id, i)]++
+				}
+			}
+		}
+	}
+	return "ok"
+}
+
+func urlEsc(s string) string {
+	var b strings.Builder
+	for i := 0; i < len(s); i++ {
+		c := s[i]
+		if c >= 'a' && c <= 'z' || c >= 'A' && c <= 'Z' || c >= '0' && c <= '9' {
+			b.WriteByte(c)
+		} else {
+			fmt.Fprintf(&b, "%%%02X", c)
+		}
+	}
+	return b.String()
+}
+
+func idsOf(msgs []edge.Message) string {
+	if len(msgs) == 0 {
+		return "-"
+	}
+	var s []string
+	for _, m := range msgs {
+		pm, ok := m.(edge.PointMessage)
+		if !ok {
+			s = append(s, "x")
+			continue
+		}
+		if v, ok := pm.Fields()["id"].(int64); ok {
+			s = append(s, strconv.FormatInt(v, 10))
+		} else {
+			s = append(s, "x")
+		}
+	}
+	return strings.Join(s, ",")
+}
+
+// execCase runs the op lines of one case and returns them with observations. `final`/`quiesce` lines are
+// (re)generated from what was started, so a shrunk or hand-written case needs none.
+func execCase(ops []string) (out []string) {
+	r := &runner{running: map[string]*taskDef{}, everDef: map[string]int{}, expected: map[string]int{}, waitLimit: 8 * time.Second}
+	if s := os.Getenv("VERIF_C02_WAIT_MS"); s != "" {
+		if v, err := strconv.Atoi(s); err == nil {
+			r.waitLimit = time.Duration(v) * time.Millisecond
+		}
+	}
+	var lines [][]string
+	for _, raw := range ops {
+		line := raw
+		if i := strings.Index(line, " => "); i >= 0 {
+			line = line[:i]
+		}
+		t := strings.Fields(line)
+		if len(t) == 0 || t[0] == "final" || t[0] == "quiesce" {
+			continue
+		}
+		if t[0] == "cfg" && len(t) >= 2 {
+			r.defRP, _ = kit.Unesc(t[1])
+			r.http = len(t) >= 3 && t[2] == "http"
+		}
+		lines = append(lines, t)
+	}
+	tm, err := kit.NewTM(kit.TMOpts{NoOpen: true})
+	if err != nil {
+		fmt.Fprintln(os.Stderr, "c02: cannot build TaskMaster:", err)
+		os.Exit(4)
+	}
+	r.tm = tm
+	tm.TM.DefaultRetentionPolicy = r.defRP
+	if err := tm.TM.Open(); err != nil {
+		fmt.Fprintln(os.Stderr, "c02: cannot open TaskMaster:", err)
+		os.Exit(4)
+	}
+	if r.http {
+		tm.HTTPD.Handler.PointsWriter = tm.TM
+	}
+	r.base = ingressSum()
+	guard := func(line string, f func() string) {
+		defer func() {
+			if rec := recover(); rec != nil {
+				out = append(out, line+" => panic")
+			}
+		}()
+		out = append(out, line+" => "+f())
+	}
+	for _, t := range lines {
+		line := strings.Join(t, " ")
+		switch t[0] {
+		case "cfg":
+			out = append(out, line)
+		case "start":
+			if len(t) != 4 {
+				out = append(out, line+" => badop")
+				continue
+			}
+			id, _ := kit.Unesc(t[1])
+			dbrps, e1 := parseDBRPs(t[2])
+			froms, e2 := parseFroms(t[3])
+			if e1 != nil || e2 != nil {
+				out = append(out, line+" => badop")
+				continue
+			}
+			guard(line, func() string { return r.start(&taskDef{id: id, dbrps: dbrps, froms: froms}) })
+		case "stop", "delete":
+			id, _ := kit.Unesc(t[1])
+			guard(line, func() string { return r.stop(id, t[0] == "delete") })
+		case "write":
+			if len(t) != 4 {
+				out = append(out, line+" => badop")
+				continue
+			}
+			db, _ := kit.Unesc(t[1])
+			rp, _ := kit.Unesc(t[2])
+			var pts []*point
+			bad := false
+			var toks []string
+			for _, x := range strings.Split(t[3], ",") {
+				p, err := parsePoint(x)
+				if err != nil {
+					bad = true
+					break
+				}
+				pts = append(pts, p)
+				toks = append(toks, pointTok(p))
+			}
+			if bad {
+				out = append(out, line+" => badop")
+				continue
+			}
+			// re-render the points so that the oracle column (pass) is always the harness' own
+			line = fmt.Sprintf("write %s %s %s", t[1], t[2], strings.Join(toks, ","))
+			guard(line, func() string { return r.write(db, rp, pts) })
+		default:
+			out = append(out, line+" => badop")
+		}
+	}
+	// final read-out: everything forked, every running task's sinks complete and quiet, then close
+	r.waitForked()
+	all := map[string]bool{}
+	for id := range r.running {
+		all[id] = true
+	}
+	r.waitSinks(all, true)
+	tm.Close()
+	if r.http {
+		tm.HTTPD.Handler.PointsWriter = nil
+	}
+	for _, id := range r.order {
+		for i := 0; i < r.everDef[id]; i++ {
+			out = append(out, fmt.Sprintf("final %s %d => %s", kit.Esc(id), i, idsOf(tm.Rec.Get(sinkKey(id, i)))))
+		}
+	}
+	out = append(out, fmt.Sprintf("quiesce => %d", r.timeouts))
+	return out
+}
+
+func emit(out *kit.Out, id string, lines []string) {
+	out.Line("case", id)
+	for _, l := range lines {
+		out.Line(l)
+	}
+	out.Line("end")
+	out.Flush()
+}
+
+// Run: `vh-c02 -seed S -n N [-tier thorough]` generates; `vh-c02 -ops file` re-executes the cases of a file.
 func Run(args []string) int {
-	fmt.Fprintln(os.Stderr, "c02: harness not implemented yet")
-	return 3
+	f := kit.ParseFlags(args)
+	out := kit.NewOut()
+	defer out.Flush()
+	if f.Ops != "" {
+		lines, err := kit.ReadLines(f.Ops)
+		if err != nil {
+			fmt.Fprintln(os.Stderr, err)
+			return 2
+		}
+		var cur []string
+		id := ""
+		for _, l := range lines {
+			t := strings.Fields(l)
+			switch {
+			case len(t) == 2 && t[0] == "case":
+				id, cur = t[1], nil
+			case len(t) == 1 && t[0] == "end":
+				emit(out, id, execCase(cur))
+			default:
+				cur = append(cur, l)
+			}
+		}
+		return 0
+	}
+	r := kit.NewRand(f.Seed)
+	for i := 0; i < f.N; i++ {
+		emit(out, fmt.Sprintf("g%d", i), execCase(genCase(r.Fork(), i, f.Tier)))
+	}
+	return 0
 }
